@@ -26,7 +26,7 @@ def EXHAUSTIVE(tier):
 
 
 def plan(tier):
-    return {"n_random": 480 if tier == "quick" else 0, "item_draws": 8, "time_s": 700 if tier == "quick" else 1750, "shrink_evals": 0}
+    return {"n_random": 1300 if tier == "quick" else 0, "item_draws": 8, "time_s": 700 if tier == "quick" else 1750, "shrink_evals": 0}
 
 
 @functools.lru_cache(maxsize=None)
@@ -175,6 +175,10 @@ def run_case(desc):
         out.cls("rigid:far" if np.abs(rg["trans"]).max() > 5 else "rigid:near")
     perm = np.random.RandomState(desc["perm"]).permutation(n)
     s2 = s2[perm]
+    if desc["perm"] % 3 == 0:
+        s2.set_constraint()
+        gc.attach_payload(s2, desc["perm"])
+        out.cls("payload:constraints+tags+magmoms")
     setA = {int(i) for i in range(n) if perm[i] < nA}
     setB = set(range(n)) - setA
     key = "%s/%s:%s:%s" % (it["A"], it["B"], it["st"], "".join(str(x) for x in it["facet"]))
